@@ -5,5 +5,6 @@ import "verif/harness/internal/fw"
 var All = map[string]*fw.Prop{
 	"C01": C01,
 	"C02": C02,
+	"C16": C16,
 	"C17": C17,
 }
